@@ -29,6 +29,8 @@ Definition kst := option val.                  (* None = key absent / content vo
 Inductive op :=
 | OSet (v : val)                    (* Set, CreateIfNotExist+Overwrite *)
 | OInc (d : Z)                      (* IncrementInt64 by d, no condition *)
+| OIncIf (c : N) (cv : Z) (d : Z)   (* IncrementInt64 by d if "current c cv" (c: 0 = 1 > 2 >= 3 < 4 <= 5 <>) *)
+| OShiftM (thr : Z)                 (* ShiftMatchingTreasures, filter "Int64 value > thr", all matches *)
 | ODel                              (* Delete *)
 | OShift                            (* ShiftByKeys [key] (CloneAndDeleteTreasuresByKeys) *)
 | OPatch (create : bool) (d : Z)    (* PatchTreasures: INC "n" by d, CreateIfNotExist = create *)
@@ -37,6 +39,8 @@ Inductive op :=
 Inductive resp :=
 | RSet (isnew : bool)               (* NEW | UPDATED/NOTHING_CHANGED (not distinguished: C06's sticky flags) *)
 | RInc (v : Z)
+| RIncNo (v : Z)                    (* condition not met: the current value, nothing changed *)
+| RShiftM (v : kst)                 (* this key's record in the reply of the matching shift, None = not taken *)
 | RErr                              (* increment on a non-int64 record *)
 | RDel (found : bool)               (* DELETED | NOT_FOUND *)
 | RShift (v : kst)                  (* the shifted value, None when the key was absent *)
@@ -49,6 +53,16 @@ Definition wrap64 (z : Z) : Z :=
 
 Definition is_some {A} (o : option A) : bool := match o with Some _ => true | None => false end.
 
+Definition cond_holds (c : N) (cv v : Z) : bool :=
+  match c with
+  | 0%N => Z.eqb v cv | 1%N => Z.ltb cv v | 2%N => Z.leb cv v
+  | 3%N => Z.ltb v cv | 4%N => Z.leb v cv | _ => negb (Z.eqb v cv)
+  end.
+
+(* does a record satisfy the filter of OShiftM thr *)
+Definition shiftm_match (thr : Z) (s : kst) : bool :=
+  match s with Some (VI z) => Z.ltb thr z | _ => false end.
+
 Definition seq_step (s : kst) (o : op) : kst * resp :=
   match o with
   | OSet v => (Some v, RSet (negb (is_some s)))
@@ -58,6 +72,14 @@ Definition seq_step (s : kst) (o : op) : kst * resp :=
       | Some (VI v) => (Some (VI (wrap64 (v + d))), RInc (wrap64 (v + d)))
       | Some (VM _) => (s, RErr)
       end
+  | OIncIf c cv d =>
+      (* the code reads a void/absent record as 0; a rejected increment saves nothing *)
+      match s with
+      | None | Some VV => if cond_holds c cv 0 then (Some (VI (wrap64 d)), RInc (wrap64 d)) else (s, RIncNo 0)
+      | Some (VI v) => if cond_holds c cv v then (Some (VI (wrap64 (v + d))), RInc (wrap64 (v + d))) else (s, RIncNo v)
+      | Some (VM _) => (s, RErr)
+      end
+  | OShiftM thr => if shiftm_match thr s then (None, RShiftM s) else (s, RShiftM None)
   | ODel => (None, RDel (is_some s))
   | OShift => (None, RShift s)
   | OPatch cr d =>
@@ -243,6 +265,8 @@ Definition resp_eqb (a b : resp) : bool :=
   match a, b with
   | RSet x, RSet y => Bool.eqb x y
   | RInc x, RInc y => Z.eqb x y
+  | RIncNo x, RIncNo y => Z.eqb x y
+  | RShiftM x, RShiftM y => kst_eqb x y
   | RErr, RErr => true
   | RDel x, RDel y => Bool.eqb x y
   | RShift x, RShift y => kst_eqb x y
@@ -268,7 +292,7 @@ Definition resp_eqb (a b : resp) : bool :=
 Definition rstate := (kst * kst)%type.       (* (visible state, ghost) *)
 
 Definition is_write (o : op) : bool :=
-  match o with OSet _ | OInc _ | OPatch _ _ => true | _ => false end.
+  match o with OSet _ | OInc _ | OIncIf _ _ _ | OPatch _ _ => true | _ => false end.
 
 (* result: new state, response, "any response of the same kind is accepted" *)
 Definition relaxed_step (relax : N) (flag : bool) (s : rstate) (o : op) : rstate * resp * bool :=
@@ -282,6 +306,12 @@ Definition relaxed_step (relax : N) (flag : bool) (s : rstate) (o : op) : rstate
       if flag && N.leb 3 relax then ((None, removed), RShift cur, true)
       else ((None, removed), RShift cur, false)
   | OGet => (s, RGet cur, false)
+  | OShiftM thr =>
+      (* a matching shift removes like a Delete; flagged under relax 3 its clone may be stale
+         (the oracle [shiftm_oracle] still demands that whatever it returns satisfies the filter) *)
+      if flag && N.leb 3 relax then ((None, removed), RShiftM cur, true)
+      else if shiftm_match thr cur then ((None, cur), RShiftM cur, false)
+      else (s, RShiftM None, false)
   | _ =>
       if flag && N.leb 2 relax && is_some ghost then
         let '(g', r) := seq_step ghost o in
@@ -313,7 +343,7 @@ Fixpoint mark_seen (n : nat) (seen : list bool) : option (list bool) :=
 
 Definition same_kind (a b : resp) : bool :=
   match a, b with
-  | RSet _, RSet _ | RInc _, RInc _ | RErr, RErr | RDel _, RDel _
+  | RSet _, RSet _ | RInc _, RInc _ | RIncNo _, RIncNo _ | RShiftM _, RShiftM _ | RErr, RErr | RDel _, RDel _
   | RShift _, RShift _ | RPatch _, RPatch _ | RGet _, RGet _ => true
   | _, _ => false
   end.
@@ -350,10 +380,42 @@ Definition cert_code (c : lcase) : N :=
 
 (* verdict of a case: 0 = linearizable (certificate valid under the specification);
    1..4 = invalid certificate (mismatch: the untrusted search and the Coq meaning disagree);
+   14 = a matching shift returned a record that does not satisfy its filter;
+   15 = a Get or a shift handed out an int64 value that no request wrote;
    11/12/13 = the harness found no linearization under the specification, but the history is
    explained by the named deviation class (a violation with that signature).  A history for
    which the search finds no explanation at all is reported by the harness itself. *)
+(* oracle on the observations alone, independent of any order: a matching shift only hands
+   out records that satisfy its filter (in every serial order the reply of
+   ShiftMatching(value > thr) consists of matching records) *)
+Definition shiftm_oracle (ops : list hop) : bool :=
+  forallb (fun h => match h_op h, h_resp h with
+                    | OShiftM thr, RShiftM (Some v) => shiftm_match thr (Some v)
+                    | _, _ => true
+                    end) ops.
+
+(* second order-independent clause: an int64 value handed out by a Get or a shift was written
+   by somebody - it is the initial value, the value of a Set, or the acknowledged result of an
+   increment (every request of a history has returned, so every stored int64 is one of these) *)
+Definition written_ints (init : kst) (ops : list hop) : list Z :=
+  (match init with Some (VI z) => [z] | _ => [] end) ++
+  flat_map (fun h => match h_op h, h_resp h with
+                     | OSet (VI z), _ => [z]
+                     | _, RInc z => [z]
+                     | _, _ => []
+                     end) ops.
+
+Definition handed_out_oracle (init : kst) (ops : list hop) : bool :=
+  let w := written_ints init ops in
+  forallb (fun h => match h_resp h with
+                    | RShift (Some (VI z)) | RShiftM (Some (VI z)) | RGet (Some (VI z)) => existsb (Z.eqb z) w
+                    | _ => true
+                    end) ops.
+
 Definition check_case (c : lcase) : N :=
+  if negb (shiftm_oracle (c_ops c)) then 14%N
+  else if negb (handed_out_oracle (c_init c) (c_ops c)) then 15%N
+  else
   if N.eqb (c_relax c) 9 then 0%N   (* no certificate: emitted for the record, verdict by the harness *)
   else
   match cert_code c with
